@@ -249,7 +249,7 @@ def unpack_float(items, code, big):
 class MathModel:
     def __init__(self):
         for k in dir(math):
-            if not k.startswith("_"):
+            if not k.startswith("_") and k not in type(self).__dict__:
                 setattr(self, k, getattr(math, k))
 
     @staticmethod
